@@ -490,7 +490,7 @@ Definition flusher_iter (live_shape : N) (h : handle) (w : world) (slept : Z) (w
   | None => Panic
   | Some m =>
       match st_async (m_set m) with
-      | None => Panic                                        (* s.AsyncWrites is nil *)
+      | None => Ok (h, w, None)                              (* async writes were disabled: the routine ends *)
       | Some (thr, tmo) =>
           let slept' := if wake then (slept + 1)%Z else slept in
           if (Z.geb (Z.of_nat (length (h_pend h))) thr) || (Z.geb slept' tmo) then
@@ -785,12 +785,21 @@ Definition step_fg (hk : hooks) (live_shape : N) (s : state) (o : op) : state * 
           if negb (str_eqb (st_ext (m_set m)) (st_ext st)) then (mk h1 w, RUnit (Err EExtension)) else
           if negb (Nat.eqb (length (m_fields m)) (length fds) && forallb (fun p => fdesc_eqb (fst p) (snd p)) (combine (m_fields m) fds))
           then (mk h1 w, RUnit (Err EFieldDesc)) else
-          let m1 := {| m_set := {| st_cache := st_cache st; st_async := st_async st;
-                                   st_compress := st_compress (m_set m); st_ext := st_ext (m_set m) |};
-                       m_fields := m_fields m; m_shape := m_shape m; m_idx := m_idx m;
-                       m_started := match st_async st with Some _ => false | None => m_started m end |} in
-          let (e, w1) := save_schema w m1 in
-          (mk (set_mem h1 (Some m1)) w1, RUnit (lift_e e))
+          (* pending writes are flushed before asynchronous writes get disabled *)
+          let '(h2, fe, w0) := if async_on m && negb (match st_async st with Some _ => true | None => false end)
+                               then flush_all live_shape h1 w else (h1, None, w) in
+          match fe with
+          | Some x => (mk h2 w0, RUnit (Err x))
+          | None =>
+              let m1 := {| m_set := {| st_cache := st_cache st; st_async := st_async st;
+                                       st_compress := st_compress (m_set m); st_ext := st_ext (m_set m) |};
+                           m_fields := m_fields m; m_shape := m_shape m; m_idx := m_idx m;
+                           m_started := match st_async st with Some _ => false | None => m_started m end |} in
+              (* a cache that is no longer maintained is dropped *)
+              let h3 := if must_cache m1 then h2 else set_cache h2 [] in
+              let (e, w1) := save_schema w0 m1 in
+              (mk (set_mem h3 (Some m1)) w1, RUnit (lift_e e))
+          end
       | (h1, _, Some ENotFound) =>
           let m := {| m_set := st; m_fields := fds; m_shape := live_shape; m_idx := new_index fds; m_started := false |} in
           let (ok, w1) := fs_mkdir w in
